@@ -218,3 +218,44 @@ theorem rqKnots_valid (lo hi : Float) (w : List ℝ) (hw : w ≠ []) (hpos : ∀
   · rw [hkn]; exact hstrictc
 
 end SplineExec
+
+namespace SplineExec
+variable (e : Float → ℝ)
+
+/-- **Executable cdf knots of the linear / quadratic / cubic splines** (`0 :: setLast (cumsum w) 1`, normalised
+    coordinates): for positive masses summing to one the list has `K+1` entries, starts at 0, ends at 1 and is strictly
+    increasing; pinning the last entry to 1 changes nothing. -/
+theorem unitKnots_valid (w : List ℝ) (hw : w ≠ []) (hpos : ∀ x ∈ w, 0 < x) (hsum : w.sum = 1) :
+    let kn := (0 : ℝ) :: setLast (cumsumG (realX e) w) 1
+    kn.length = w.length + 1 ∧ kn.head? = some 0 ∧ kn.getLast? = some 1 ∧ kn.Pairwise (· < ·) := by
+  intro kn
+  have hl := cumsumG_last e w hw
+  rw [hsum] at hl
+  have hpin : setLast (cumsumG (realX e) w) 1 = cumsumG (realX e) w := setLast_of_getLast _ _ hl
+  have hne : cumsumG (realX e) w ≠ [] := by intro h; rw [h] at hl; simp at hl
+  have hstrict := cumsumG_strict e w hpos
+  have hfirst : ∀ a ∈ cumsumG (realX e) w, (0:ℝ) < a := by
+    intro a ha
+    rw [cumsumG_eq] at ha
+    simp only [List.mem_map, List.mem_range] at ha
+    obtain ⟨k, hk, rfl⟩ := ha
+    cases ht : w.take (k+1) with
+    | nil =>
+      have := congrArg List.length ht
+      simp only [List.length_take, List.length_nil] at this; omega
+    | cons y ys =>
+      have hy : ∀ z ∈ y :: ys, 0 < z := fun z hz => hpos z (List.mem_of_mem_take (ht ▸ hz))
+      simp only [List.sum_cons]
+      have : 0 ≤ ys.sum := List.sum_nonneg (fun z hz => (hy z (List.mem_cons_of_mem _ hz)).le)
+      linarith [hy y (List.mem_cons_self)]
+  have hk : kn = (0:ℝ) :: cumsumG (realX e) w := by
+    show (0:ℝ) :: setLast (cumsumG (realX e) w) 1 = _
+    rw [hpin]
+  rw [hk]
+  refine ⟨by simp [cumsumG_eq], by simp, ?_, ?_⟩
+  · cases hc : cumsumG (realX e) w with
+    | nil => exact absurd hc hne
+    | cons a l => rw [hc] at hl; simpa [List.getLast?_cons_cons] using hl
+  · exact List.pairwise_cons.mpr ⟨hfirst, hstrict⟩
+
+end SplineExec
